@@ -43,6 +43,10 @@ char *v_strcasestr(const char *, const char *);
 size_t v_strnlen(const char *, size_t);
 char *v_strtok_r(char *, const char *, char **);
 char *v_strdup(const char *);
+size_t v_strspn(const char *, const char *);
+size_t v_strcspn(const char *, const char *);
+char *v_strpbrk(const char *, const char *);
+char *v_strsep(char **, const char *);
 char *v_strndup(const char *, size_t);
 long v_atol(const char *);
 int v_atoi(const char *);
@@ -55,6 +59,10 @@ int v_sscanf(const char *, const char *, ...);
 #define strnlen(...)    v_strnlen(__VA_ARGS__)
 #define strtok_r(...)   v_strtok_r(__VA_ARGS__)
 #define strdup(...)     v_strdup(__VA_ARGS__)
+#define strspn(...)     v_strspn(__VA_ARGS__)
+#define strcspn(...)    v_strcspn(__VA_ARGS__)
+#define strpbrk(...)    v_strpbrk(__VA_ARGS__)
+#define strsep(...)     v_strsep(__VA_ARGS__)
 #define strndup(...)    v_strndup(__VA_ARGS__)
 #define atol(...)       v_atol(__VA_ARGS__)
 #define atoi(...)       v_atoi(__VA_ARGS__)
